@@ -5,6 +5,7 @@ import Np.Proofs.ShapeFns
 import Np.Proofs.IndexFns
 import Np.Proofs.SelectFns
 import Np.Proofs.AdvIndexFns
+import Np.Proofs.GenIndexFns
 /-! C09 — shape functions and indexing move whole polynomial elements like numpy: property theorems, for *every*
 index map (hence every shape, axis, index or section argument numpy accepts) -/
 namespace Np.Props.C09
@@ -309,5 +310,48 @@ theorem repeat_counts_reads {shape reps out idx : List Nat} {axis : Nat}
       idx[ravel out j]? = some (ravel shape (j.set axis t)) ∧ Valid shape (j.set axis t) ∧
       t < r.length ∧ q < r.getD t 0 ∧ j.getD axis 0 = (r.take t).sum + q := repeatsF_spec h hj
 end advindex
+
+/-! ### the general index expression `a[items]`: integers, slices with steps, `newaxis`, `...`, integer arrays and
+boolean masks in one tuple (`Np/Model/GenIndexFns.lean`) - what `ndpoly.__getitem__` hands to numpy -/
+section genindex
+open Np.Shape Np.ShapeFns Np.IndexFns Np.AdvIndexFns Np.GenIndexFns
+
+/-- whatever the items: one entry per element of the result, every entry a position of the operand -/
+theorem general_index_in_range {shape : List Nat} {items : List GItem} {out idx : List Nat}
+    (h : genIndexF shape items = some (out, idx)) : idx.length = size out ∧ ∀ k ∈ idx, k < size shape :=
+  ⟨genIndexF_length h, genIndexF_lt h⟩
+
+/-- without an integer array or a mask the expression is the basic index of `basic_index_reads` -/
+theorem general_index_basic {shape : List Nat} {items : List GItem} (ha : items.any GItem.isAdvanced = false) :
+    genIndexF shape items = basicIndexF shape (items.map GItem.toBasic) := genIndexF_basic ha
+
+/-- with an integer array or a mask numpy's two stages: the slices and `newaxis` items give the view `vs` (advanced
+items replaced by `:`), masks become the coordinate arrays of their `True` positions and integers 0-d index arrays; the
+index arrays broadcast to `B`, whose axes stand at position `p` among the kept axes of the view (`p` = the number of kept
+axes before the advanced items if these are adjacent in the index as written, else 0); output multi-index
+`pre ++ b ++ post` reads the view at `y = mixIn vs m b (pre ++ post)` - every advanced axis reads its index array at `b`
+(`mixIn_getD_adv`), the kept axes take `pre ++ post` in order (`mixIn_getD_slice`) - and the view reads the operand at the
+`x` that the rules of basic indexing (`Reads`) assign to `y` -/
+theorem general_index_reads {shape : List Nat} {items : List GItem} {out idx : List Nat}
+    (ha : items.any GItem.isAdvanced = true) (h : genIndexF shape items = some (out, idx)) :
+    ∃ items' v m vs B, expandG shape.length items = some items' ∧ translate shape items' = some (v, m) ∧
+      bshapeAll ((m.filterMap id).map (·.1)) = some B ∧ (∀ ix ∈ m.filterMap id, BcastTo ix.1 B) ∧
+      bposG items m ≤ (slicedDims vs m).length ∧
+      out = (slicedDims vs m).take (bposG items m) ++ B ++ (slicedDims vs m).drop (bposG items m) ∧
+      ∀ pre b post, Valid ((slicedDims vs m).take (bposG items m)) pre → Valid B b →
+        Valid ((slicedDims vs m).drop (bposG items m)) post →
+        ∃ x, Reads shape v vs (mixIn vs m b (pre ++ post)) x ∧ Valid shape x ∧
+          idx[ravel out (pre ++ b ++ post)]? = some (ravel shape x) := genIndexF_spec ha h
+
+/-- non-vacuity (numpy on `arange(24).reshape(2, 3, 4)`): `a[0, :, [1, 2]]` - the integer counts as an advanced item, it
+is separated from the array by the slice, so the broadcast axis comes first -; a 2-d mask followed by a stepped slice;
+an ellipsis that stands for no axis still separates -/
+example : genIndexF [2, 3, 4] [.int 0, .slice none none 1, .arr ([2], [1, 2])] =
+    some ([2, 3], [1, 5, 9, 2, 6, 10]) := by decide
+example : genIndexF [2, 3, 4] [.mask [2, 3] [true, false, true, false, false, true], .slice none none 2] =
+    some ([3, 2], [0, 2, 8, 10, 20, 22]) := by decide
+example : genIndexF [3, 1, 2] [.slice none none 1, .int 0, .ellipsis, .arr ([2], [0, 1])] =
+    some ([2, 3], [0, 2, 4, 1, 3, 5]) := by decide
+end genindex
 
 end Np.Props.C09
